@@ -6,12 +6,14 @@ From Cedar Require Export Run.
 From Cedar Require Export ConformRun.
 From Cedar Require Export TExprRun.
 From Cedar Require Export TCRun.
+From Cedar Require Export ParseRun.
 
 Definition dispatchers : list (string -> list sexp -> option sexp) :=
   [ run_core
   ; run_conform
   ; run_texpr
   ; run_tc
+  ; run_c05
   ].
 
 Fixpoint dispatch (ds : list (string -> list sexp -> option sexp)) (cmd : string) (args : list sexp) : sexp :=
